@@ -22,10 +22,11 @@ CLAIMED = {
  "C15": ("4 C15", "Mem.tla: caller buffers and result intervals as state; Call requires every byte of every caller buffer (whole backing array, three layouts: len=cap, len<cap, interior sub-slice) unchanged and every returned slice disjoint from all caller buffers and all earlier results; Probe re-observes values after the caller scribbled over returned slices / input buffers. Element and scalar arguments are covered by the frame conditions of C10's histories."),
  "C16": ("4 C16", "2..32 goroutines (GOMAXPROCS 1/2/4/16) call the API on own receivers with shared read-only elements, scalars, message, DST (spare capacity) and encodings in a -race binary; every goroutine's history is validated by TLC against the sequential specification (each call returns its sequential result); race-detector reports become RaceReport events for which the specification has no action."),
  "C17": ("4 C17", "Link.tla: the hash registry filled by the init functions of the linked packages; the library's import closure is read from the working tree (go list -deps) and TLC enumerates every program (all sets of extra registry-filling packages); real probe programs (plain binaries) are built and run for chosen / all sets, their outcome is checked against the model's prediction and the property, their results against the RFC 9380 specification."),
+ "C19": ("4 C19", "Schedule.tla (2-safety by self-composition: the first run of a point fixes the reference schedule, every other scalar must reproduce it exactly): every function of internal/field and internal/scalar is instrumented in a temporary copy made from the working tree (AST rewriter + overlay) and the ~79,000-entry sequence of field-level operations of Multiply is recorded for scalar classes 0, 2, 3, n-1, n-2, 2^i, 2^255, sparse, dense, word-structured, random on base / hashed / non-normalised / identity points. Only scalar-independence is demanded, not a particular schedule."),
  "C18": ("4 C18", "SRandom action over scripted entropy sources (crypto/rand.Reader swapped): blocks 0 and n force retries, every chunking of Reads, source failing at every kind of position; RandomSrc!Outcome decides result / panic."),
 }
+ # (C19 appended below)
 NOT_YET = {
- "C19": "check not built yet in this revision (planned: Schedule.tla + field-operation traces)",
 }
 
 def main():
